@@ -147,6 +147,15 @@ def run_c12(tier, seed):
             except ImportError:
                 pass
         st2, dec = pycodec.decode(rfcp, rsch, "Fcp", enc)
+        # identity needs no oracle: what comes back must be the record that went in
+        try:
+            back = serde.decode(rfcp, "Fcp", bytearray(enc))
+            if norm(back) != norm(rec):
+                d2 = first_diff(norm(rec), norm(back))
+                chk.violation("reflection:decoded-record-differs:%s" % ("/".join(p for p in d2[0].split("/") if p and not p.isdigit())[:60] if d2 else "?"),
+                              {"mode": c["mode"], "text": c["text"], "at": d2[0] if d2 else None, "record": d2[1] if d2 else None, "decoded": d2[2] if d2 else None})
+        except Exception as e:
+            chk.violation("reflection:decode-raised:%s" % type(e).__name__, {"mode": c["mode"], "text": c["text"], "error": str(e)[:200]})
         eid = "e%d" % ci
         events.append({"id": eid, "kind": "enc", "schema": rsch, "root": "Fcp", "value": val, "ok": enc_ok, "bytes": enc})
         events.append({"id": "d" + eid, "kind": "rt", "schema": rsch, "root": "Fcp", "value": val,
